@@ -518,7 +518,7 @@ func checkView(v *poolView) ([]*violation, *viewStats) {
 				break
 			}
 			if len(p) > 0 && tx.Nonce() <= p[len(p)-1].Nonce() {
-				out = append(out, vf("queued-not-above-pending", "account %d: pending %s queued %s", i, describe(p), describe(q)))
+				out = append(out, vfa(i, "queued-not-above-pending", "account %d: pending %s queued %s", i, describe(p), describe(q)))
 				break
 			}
 		}
